@@ -94,6 +94,30 @@ pub fn run(args: &[&str]) -> String {
         Ok(Ok(d)) => with(show(&d), oracle(&d)),
       }
     }
+    ["fromcore", h] => {
+      let Some(s) = arg(h) else { return "bad-request".into() };
+      let Ok(core) = CoreDID::parse(&s) else { return "core-err".into() };
+      let c2 = core.clone();
+      match std::panic::catch_unwind(move || IotaDID::try_from(c2)) {
+        Err(_) => "panic\t#FAIL:panic:IotaDID::try_from(CoreDID) panicked".into(),
+        Ok(Err(_)) => {
+          // the serde path must agree
+          let j = format!("\"{}\"", s);
+          with("err".into(), if IotaDID::from_json(&j).is_ok() { Some("serde-accepts-what-try-from-rejects:".into()) } else { None })
+        }
+        Ok(Ok(d)) => {
+          let j = format!("\"{}\"", s);
+          let f = oracle(&d).or_else(|| match IotaDID::from_json(&j) {
+            Ok(d2) if d2 == d => None,
+            _ => Some("serde-differs-from-try-from:".into()),
+          }).or_else(|| match IotaDID::parse(&s) {
+            Ok(d3) if d3 == d => None,
+            _ => Some("try-from-core-differs-from-parse:".into()),
+          });
+          with(show(&d), f)
+        }
+      }
+    }
     ["new", b, n] => {
       let (Some(b), Some(n)) = (unhex(b), arg(n)) else { return "bad-request".into() };
       let Ok(bytes): Result<[u8; 32], _> = b.clone().try_into() else { return "bad-request".into() };
@@ -141,6 +165,9 @@ pub fn run(args: &[&str]) -> String {
 
 fn emit_parse(out: &mut impl Write, s: &str) {
   writeln!(out, "C17 parse {} {}", hex(s.as_bytes()), hex(s.to_lowercase().as_bytes())).unwrap();
+  if s.is_ascii() {
+    writeln!(out, "C17 fromcore {}", hex(s.as_bytes())).unwrap();
+  }
 }
 
 pub fn gen(thorough: bool, seed: u64, out: &mut impl Write) {
@@ -177,6 +204,15 @@ pub fn gen(thorough: bool, seed: u64, out: &mut impl Write) {
     emit_parse(out, &format!("{}did:iota:{}", pre, tag));
   }
   // exhaustive short network names over a small alphabet
+  // networks that are prefixes / extensions / anagrams of the default network
+  for n in ["i", "io", "iot", "iota", "iotaa", "iotab", "ota", "iota0", "I", "IO", "Iot", "o", "t", "a", "iot4", "oi", "atoi"] {
+    writeln!(out, "C17 net {}", hex(n.as_bytes())).unwrap();
+    emit_parse(out, &format!("did:iota:{}:{}", n, tag));
+    emit_parse(out, &format!("did:iota:{}:{}", n, zero));
+    if NetworkName::try_from(n.to_string()).is_ok() {
+      writeln!(out, "C17 new {} {}", hex(&[7u8; 32]), hex(n.as_bytes())).unwrap();
+    }
+  }
   let alpha = ["a", "z", "0", "9", "A", "-", "é", ":", ""];
   for a in alpha {
     for b in alpha {
